@@ -205,9 +205,9 @@ ESCAPE_SEQ      <-- '\'->'' @ESCAPE
 ESCAPE          <-- [\'"] /
                     ('n' $10 / 't' $9 / 'r' $13 / 'a' $7 / 'b' $8 / 'v' $11 / 'f' $12)->tochar /
                     ('x' {HEX_DIGIT^2} $16)->tochar /
-                    ('u' '{' {HEX_DIGIT^+1} '}' $16)->toutf8char /
+                    ('u' '{' &HEX_DIGIT {'0'* ([0-7] HEX_DIGIT^7 / HEX_DIGIT^-7)} '}' $16)->toutf8char /
                     ('z' SPACE*)->'' /
-                    (DEC_DIGIT DEC_DIGIT^-1 !DEC_DIGIT / [012] DEC_DIGIT^2)->tochar /
+                    (DEC_DIGIT DEC_DIGIT^-1 !DEC_DIGIT / [01] DEC_DIGIT^2 / '2' [0-4] DEC_DIGIT / '25' [0-5])->tochar /
                     (LINEBREAK $10)->tochar
 
 -- Number
